@@ -25,9 +25,27 @@ type c11Side struct {
 
 func (s c11Side) status(x string) refpath.Status { return s.verdict(x).Status() }
 
-var c11Path = c11Side{"path", module.EscapePath, module.UnescapePath,
+// c11Twice calls f twice in a row with the same argument (every third call, by argument length): the second
+// answer must be the first one — a refusal stays a refusal, an accepted value stays the same value.
+var c11Ctx *mon.Ctx
+
+func c11Twice(what string, f func(string) (string, error)) func(string) (string, error) {
+	return func(x string) (string, error) {
+		out, err := f(x)
+		if len(x)%3 == 0 && c11Ctx != nil {
+			out2, err2 := f(x)
+			if out2 != out || (err == nil) != (err2 == nil) {
+				c11Ctx.Violation("same-call-answers-differently-the-second-time", what+":"+mon.QS(x), map[string]any{"function": what, "argument": mon.QS(x),
+					"first": mon.QS(out), "first_err": fmt.Sprint(err), "second": mon.QS(out2), "second_err": fmt.Sprint(err2)})
+			}
+		}
+		return out, err
+	}
+}
+
+var c11Path = c11Side{"path", c11Twice("EscapePath", module.EscapePath), c11Twice("UnescapePath", module.UnescapePath),
 	func(p string) refpath.Verdict { return refpath.Check(p, refpath.Module) }}
-var c11Version = c11Side{"version", module.EscapeVersion, module.UnescapeVersion,
+var c11Version = c11Side{"version", c11Twice("EscapeVersion", module.EscapeVersion), c11Twice("UnescapeVersion", module.UnescapeVersion),
 	refpath.CheckVersion}
 
 func c11HasUpper(s string) bool {
@@ -275,6 +293,7 @@ func runC11(c *mon.Ctx) {
 		return
 	}
 	coldStart(c, "C11")
+	c11Ctx = c
 	r := c.Rng
 	s := &c11State{c: c, fold: map[string]string{}}
 	okMod := c06OK(refpath.Module)
